@@ -37,3 +37,27 @@ Example C02_example_bytes :
   | _ => False
   end.
 Proof. vm_compute. split; reflexivity. Qed.
+
+(* ---------- the decoding half -------------------------------------------- *)
+Require Import CborDec CborParse CborDecProof CborRoundtrip.
+
+(* Decoding the reference encoding yields the same tokens again — a
+   non-negative Int comes back as Uint and an indefinite Length as -1
+   ([canon]) — and consumes exactly those bytes, whatever follows them.
+   Side conditions: declared lengths are exact (len_ok) and strings respect the
+   decoder's 32 MiB per-item cap (rt_ok). *)
+Theorem C02_roundtrip : forall n c rest, enc_ok n -> len_ok n -> rt_ok n ->
+  exists a, dec_run c (rfc_enc n ++ rest) = DOk (flatten (canon n)) rest a.
+Proof.
+  intros n c rest H1 H2 H3.
+  destruct (parse_rfc_enc_canon n c rest H1 H2 H3) as [fuel Hp].
+  exact (dec_complete fuel c _ _ _ Hp).
+Qed.
+Print Assumptions C02_roundtrip.
+
+Example C02_example_roundtrip :
+  match dec_run false (rfc_enc c02_example ++ [1;2;3]) with
+  | DOk toks rest _ => toks = flatten (canon c02_example) /\ rest = [1;2;3]
+  | _ => False
+  end.
+Proof. vm_compute. split; reflexivity. Qed.
